@@ -33,4 +33,7 @@ META = {
  "C17": dict(
   rule="bounded-exhaustive: all strings up to length 6 (thorough 7) over {a,A,1,-,_,.,\\,e-acute}, label lengths 0..70 alone and with neighbours, encoded name lengths 245..262 in three shapes, Label::new on boundary labels, all pairs of the 31 names with <=4 labels over {a,b} plus link-local case variants for is_subdomain_of / without / is_link_local; compared with the model and with the property's grammar re-stated in the harness; distinct = distinct (request, output)",
   assumptions=STD, exhaustive=True, timeout=dict(quick=1200, thorough=7200)),
+ "C19": dict(
+  rule="Unicode strings of byte lengths 0..12 and around every multiple of 254/255 up to 1020 with multi-byte characters placed across chunk boundaries and code points congruent to ';' or '=' mod 256 through TXT::try_from(&str) / String::try_from(TXT) and a wire round trip; attribute maps (0..4 entries, absent/empty/long values, some entries over 255 bytes) through TXT::try_from(HashMap) / attributes(); attributes() and long_attributes() on arbitrary character-strings (duplicates, invalid UTF-8, '=' first, look-alike characters); CharacterString::new on every length 0..300; all compared with the model and with an independent re-statement of the property; distinct = distinct (request, output)",
+  assumptions=STD + ["String::from_utf8 = Lean core String.fromUTF8?"], timeout=dict(quick=1200, thorough=7200)),
 }
